@@ -33,6 +33,66 @@ OUTSIDE = {   # logic family -> [(assertion text, class)] well-sorted SMT-LIB ou
 }
 
 
+FACTORS = ['x', 'y', '2', '(- 1)', '(- x)', '(- y)', '(+ x 1)', '(+ y 2)']
+VALUES = [('2', '5'), ('(- 3)', '2')]
+
+
+def product_jobs(sort):
+    """every product of 2 and 3 factors (and the n-ary left-associative forms of - / div mod) equated with a constant, with x and y
+    pinned by equalities asserted before or after it (variable terms are created on first use, which changes term order)"""
+    prods = ['(* %s)' % ' '.join(fs) for k in (2, 3) for fs in itertools.product(FACTORS, repeat=k)]
+    prods += ['(- x y 1)', '(- x 1 y)', '(+ x (* 2 y) (* 3 x))']
+    prods += (['(div x 2 3)', '(div x 2 y)', '(mod x 5 3)', '(div (* 4 x) 2 2)'] if sort == 'Int' else ['(/ x 2 4)', '(/ x 2 y)', '(/ (* 4 x) 2 2)'])
+    jobs = []
+    for p in prods:
+        nvar = sum(1 for tok in p.replace('(', ' ').replace(')', ' ').split() if tok in ('x', 'y'))
+        cls = 'nonlinear' if nvar >= 2 and p.startswith('(*') else 'division' if ('div' in p or 'mod' in p or '/' in p) else 'linear_product'
+        for c in ('4', '(- 6)', '10'):
+            for vx, vy in VALUES:
+                pins = ['(= x %s)' % vx, '(= y %s)' % vy]
+                jobs.append((['(= %s %s)' % (p, c)] + pins, cls))
+                jobs.append((pins + ['(= %s %s)' % (p, c)], cls))
+                jobs.append(([pins[0], '(= %s %s)' % (p, c), '(> y 0)'], cls))        # only x pinned
+                jobs.append((['(= %s %s)' % (p, c), pins[1], '(< x 100)'], cls))     # only y pinned
+    return jobs
+
+
+def c29_prod_task(t):
+    famname, start, step = t
+    fam = F.FAMILIES[famname]
+    res = core.new_result(); cov = res['cov']
+    w = S.worker()
+    sort = 'Int' if famname == 'QF_LIA' else 'Real'
+    nl = 'QF_NIA' if sort == 'Int' else 'QF_NRA'
+    for asserts, cls in product_jobs(sort)[start::step]:
+        script = '(set-logic %s)%s%s(check-sat)' % (fam.logic, fam.decls, ''.join('(assert %s)(echo "@@")' % x for x in asserts))
+        r = w.run(script, timeout=3)
+        cov['executions'] += 1
+        if r.timeout: cov['timeouts'] += 1; continue
+        if r.crash: cov['crashes_left_to_C18'] += 1; continue
+        pieces = r.out.split('@@\n')
+        if any('(error' in p_ for p_ in pieces[:-1]):
+            cov['rejected'] += 1; res['distinct'].append((famname, tuple(asserts), 'rejected')); continue
+        ans = S.blocks(pieces[-1])[:1]
+        if not ans or ans[0] not in ('sat', 'unsat'):
+            cov['unknown_or_error_at_check'] += 1; continue
+        cov['answered_' + cls] += 1
+        res['distinct'].append((famname, tuple(asserts), ans[0]))
+        if ans[0] == 'unsat': bad = refs.find_model(nl, fam.decls, asserts) is not None
+        else: bad = refs.is_unsat(nl, fam.decls, asserts)
+        if bad:
+            if S.confirm(script, (), lambda x: S.blocks(x.out.split('@@\n')[-1])[:1] == ans, cls=('c29p', famname, cls, ans[0])):
+                prod = next(a for a in asserts if not a.startswith('(= x ') and not a.startswith('(= y '))
+                rec = {'logic': fam.logic, 'family': famname, 'options': [], 'symptom': 'out_of_logic_wrong_' + ans[0], 'input_class': cls,
+                       'site': 'nary_' + prod.split()[1].lstrip('(') if cls != 'nonlinear' else 'product',
+                       'what': '%s accepted without error under %s and answered %s with %s; the reference says the opposite' % (prod, fam.logic, ans[0], [a for a in asserts if a != prod])}
+                res['violations'].append((rec, script, 'smt2'))
+            else:
+                cov['unconfirmed_in_fresh_process'] += 1
+        if len(res['samples']) < 1: res['samples'].append({'script': script, 'stdout': r.out})
+    return res
+
+
 def c29_task(t):
     kind, famname, start, step = t
     fam = F.FAMILIES[famname]
@@ -91,6 +151,7 @@ def run_c29(tier):
     chk.run_stage('linear atoms outside difference logic x partner literals', tasks, c29_task)
     tasks = [('out', f, s, 2) for f in ('QF_LRA', 'QF_LIA') for s in range(2)]
     chk.run_stage('non-linear / division terms under linear logics', tasks, c29_task)
+    chk.run_stage('every product of 2 and 3 factors over 8 factors (and n-ary - / div mod) = constant, x and y pinned before or after it', [(f, s, 16) for f in ('QF_LRA', 'QF_LIA') for s in range(16)], c29_prod_task)
     chk.extra['oracle'] = dict(refs.stats)
     return chk.finish()
 
